@@ -223,7 +223,17 @@ def gen_files(rng, tier):
         effects = [[f"v{j}", rng.choice([0.1, 0.5, -0.25, 1.0, 0.3])] for j in idx]
         if h2mode == "none_bigbeta":
             effects[0][1] = rng.choice([1.0, -1.0, 1.5])
-        yield {"h2mode": h2mode, "route": route, "data": data, "effects": effects, "extra_lines": rng.sample([j for j in range(nv) if j not in idx], rng.randint(0, nv - k)), "ids": rng.choice([None, None, "subset"]), "samples": rng.choice([None, None, "subset"]), "normalize": rng.random() < 0.6, "K": rng.choice([None, None, 0.3, 0.5]), "R": rng.randint(1, 3), "pgen": rng.random() < 0.3, "seed": rng.randrange(2**31)}
+        hap_effects = None
+        if rng.random() < 0.4:
+            # the causal variables are haplotypes of a .hap file (1-3 variants each, REF or ALT alleles, overlapping):
+            # Z is the number of the sample's strands carrying all of the haplotype's alleles
+            hap_effects = []
+            for h in range(rng.randint(1, 3)):
+                vs = sorted(rng.sample(range(nv), rng.randint(1, min(3, nv))))
+                hap_effects.append({"id": f"H{h}", "vars": [[j, rng.randint(0, 1)] for j in vs], "beta": rng.choice([0.1, 0.5, -0.25, 1.0, 0.3])})
+            if h2mode == "none_bigbeta":
+                hap_effects[0]["beta"] = rng.choice([1.0, -1.0, 1.5])
+        yield {"hap_effects": hap_effects, "h2mode": h2mode, "route": route, "data": data, "effects": effects, "extra_lines": rng.sample([j for j in range(nv) if j not in idx], rng.randint(0, nv - k)), "ids": rng.choice([None, None, "subset"]), "samples": rng.choice([None, None, "subset"]), "normalize": rng.random() < 0.6, "K": rng.choice([None, None, 0.3, 0.5]), "R": rng.randint(1, 3), "pgen": rng.random() < 0.3, "seed": rng.randrange(2**31)}
 
 
 def impl_files(case):
@@ -239,6 +249,13 @@ def impl_files(case):
     samples = [f"s{i}" for i in range(ns)]
     variants = [(f"v{j}", "1", 10 * (j + 1), ["A", "C"]) for j in range(nv)]
     data = [[(c[0], c[1], 1) for c in r] for r in case["data"]]
+    if case.get("hap_effects"):
+        # simphenotype takes the haplotypes' pseudo-genotypes (what `haptools transform` writes): one record per haplotype,
+        # allele 1 on the strands that carry all of its alleles – written here from the definition
+        haps = case["hap_effects"]
+        variants = sorted([(h["id"], "1", 10 * (min(j for j, _ in h["vars"]) + 1), ["A", "T"]) for h in haps], key=lambda v: (v[2], v[0]))
+        byid = {h["id"]: h for h in haps}
+        data = [[tuple(int(all(row[j][k] == a for j, a in byid[v[0]]["vars"])) for k in (0, 1)) + (1,) for v in variants] for row in case["data"]]
     if case["pgen"]:
         GF.write_pgen(d / "g", samples, variants, data)
         gf = d / "g.pgen"
@@ -253,12 +270,25 @@ def impl_files(case):
     else:
         lines = lines[: len(case["effects"])]
     open(d / "e.snplist", "w").write("\n".join(lines) + "\n")
+    eff_file = d / "e.snplist"
+    if case.get("hap_effects"):
+        with open(d / "e.hap", "w") as f:
+            f.write("#\torderH\tbeta\n#\tversion\t0.2.0\n#H\tbeta\t.2f\tEffect size in linear model\n")
+            for h in case["hap_effects"]:
+                ps = [10 * (j + 1) for j, _ in h["vars"]]
+                f.write(f"H\t1\t{min(ps)}\t{max(ps) + 1}\t{h['id']}\t{h['beta']:.2f}\n")
+            f.write("R\t1\t5\t9\tREP1\t0.77\n" if False else "")
+            for h in case["hap_effects"]:
+                for j, a in h["vars"]:
+                    f.write(f"V\t{h['id']}\t{10 * (j + 1)}\t{10 * (j + 1) + 1}\tv{j}\t{'AC'[a]}\n")
+        eff_file = d / "e.hap"
+        ids = {h["id"] for h in case["hap_effects"][: max(1, len(case["hap_effects"]) - 1)]} if case["ids"] else None
     want = None
     if case["samples"]:
         want = set(rnd.sample(samples, rnd.randint(2, ns)))
     h2 = 1.0 if case.get("h2mode", "one") == "one" else None
     if case.get("route", "api") == "api":
-        simulate_pt(gf, d / "e.snplist", num_replications=case["R"], heritability=h2, prevalence=case["K"], normalize=case["normalize"], samples=want, haplotype_ids=ids, seed=case["seed"] % 2**32, output=d / "o.pheno", log=SD.silent_log())
+        simulate_pt(gf, eff_file, num_replications=case["R"], heritability=h2, prevalence=case["K"], normalize=case["normalize"], samples=want, haplotype_ids=ids, seed=case["seed"] % 2**32, output=d / "o.pheno", log=SD.silent_log())
     else:
         from click.testing import CliRunner
         from haptools.__main__ import main
@@ -273,7 +303,7 @@ def impl_files(case):
             args += ["--sample", x]
         for x in sorted(ids or []):
             args += ["--id", x]
-        r = CliRunner().invoke(main, args + [str(gf), str(d / "e.snplist")], catch_exceptions=True)
+        r = CliRunner().invoke(main, args + [str(gf), str(eff_file)], catch_exceptions=True)
         if r.exit_code != 0:
             return {"error": "cli_exit", "msg": (repr(r.exception) + r.output)[-300:]}
     p = Phenotypes(d / "o.pheno", log=SD.silent_log())
@@ -289,7 +319,15 @@ def oracle_files(case, obs):
     if obs["samples"] != [f"s{i}" for i in keep]:
         return f"samples {obs['samples']}"
     sub = {**case, "data": [case["data"][i] for i in keep]}
-    Z, betas, g = genetic(sub)
+    if case.get("hap_effects"):
+        used = case["hap_effects"][: max(1, len(case["hap_effects"]) - 1)] if case["ids"] else case["hap_effects"]
+        Z = np.array([[sum(1 for k in (0, 1) if all(row[j][k] == a for j, a in h["vars"])) for h in used] for row in sub["data"]], dtype=np.float64)
+        if case["normalize"]:
+            mu, sd = Z.mean(axis=0), Z.std(axis=0)
+            Z = np.array([[(Z[i, j] - mu[j]) / sd[j] if sd[j] != 0 else 0.0 for j in range(Z.shape[1])] for i in range(Z.shape[0])])
+        g = (Z * np.array([float(f"{h['beta']:.2f}") for h in used])).sum(axis=1)
+    else:
+        Z, betas, g = genetic(sub)
     if len(obs["names"]) != case["R"] or len(set(obs["names"])) != case["R"]:
         return f"{case['R']} replications gave columns {obs['names']}"
     for r in range(case["R"]):
@@ -339,8 +377,8 @@ CHECK = Check(
             setup=setup,
             teardown=teardown,
             nontrivial=lambda c, o: C.jdump(c),
-            describe=lambda c, o: ["pgen" if c["pgen"] else "vcf", "id-subset" if c["ids"] else "all-ids", "sample-subset" if c["samples"] else "all-samples", "cc" if c["K"] else "quant", "route=" + c.get("route", "api"), "noise-zero-by=" + ("heritability-1" if c.get("h2mode", "one") == "one" else "default-noise-with-sum-beta2>=1"), "normalize" if c["normalize"] else "no-normalize"],
-            rule="simulate_pt – through the Python entry point or through `haptools simphenotype` (click CliRunner) – end to end on written VCF / PGEN + .snplist files, noise-free either by heritability 1 or by giving neither heritability nor environment with sum beta^2 >= 1 (zero noise, so the output must equal the genetic component exactly and liabilities tie), effects listed in an order different from the genotype file, --id and --sample subsets, prevalence 0.3 / 0.5, 1-3 replications; output read back with Phenotypes.read",
+            describe=lambda c, o: ["pgen" if c["pgen"] else "vcf", "id-subset" if c["ids"] else "all-ids", "sample-subset" if c["samples"] else "all-samples", "cc" if c["K"] else "quant", "route=" + c.get("route", "api"), "effects=" + ("hap-file" if c.get("hap_effects") else "snplist"), "noise-zero-by=" + ("heritability-1" if c.get("h2mode", "one") == "one" else "default-noise-with-sum-beta2>=1"), "normalize" if c["normalize"] else "no-normalize"],
+            rule="simulate_pt – through the Python entry point or through `haptools simphenotype` (click CliRunner) – end to end on written VCF / PGEN files with the effects in a .snplist or – as haplotypes with a beta field – in a .hap file (the genotype file then holds the haplotypes' pseudo-genotypes, written from the definition), noise-free either by heritability 1 or by giving neither heritability nor environment with sum beta^2 >= 1 (zero noise, so the output must equal the genetic component exactly and liabilities tie), effects listed in an order different from the genotype file, --id and --sample subsets, prevalence 0.3 / 0.5, 1-3 replications; output read back with Phenotypes.read",
         ),
     ],
     trusted=["IEEE arithmetic of numpy (sums, sqrt, division) within 1e-9 of the exact value on these small inputs", "np.argpartition meets its contract", "numpy's Generator.normal scales a standard-normal stream by `scale` (quality of the stream is not examined)"],
